@@ -403,6 +403,59 @@ def run_case(ctx, case):
                             ctx.violation('accepted-newer-field|%s|%06X' % (label.split('.')[0], newer[0]),
                                           'a KMIP %d.%d %s request carrying tag %06X (KMIP %d.%d) succeeded'
                                           % (v + (label, newer[0]) + tag_intro(newer[0])), {'request': data.hex()[:500]})
+                # the same requests written by a NEWER client (so that the later-version fields are on the wire) under the
+                # header of every OLDER version of the same wire format: none may be served
+                gcm = cparams(cryptographic_algorithm=E.CryptographicAlgorithm.AES, block_cipher_mode=E.BlockCipherMode.GCM,
+                              tag_length=16)
+                nonce = b'\x07' * 12
+                enc = srv.send([op_encrypt(key.uid, b'attack at dawn!!', gcm, iv=nonce)], ident, (1, 4))
+                ct, tag = None, None
+                if enc.error is None and enc.ok():
+                    for _, it in T.walk(enc.payload() or (0, 1, [])):
+                        if it[0] == 0x4200C2:
+                            ct = it[2]
+                        if it[0] == 0x4200FF:
+                            tag = it[2]
+                enc2 = srv.send([op_encrypt(key.uid, b'attack at dawn!!', gcm, iv=nonce, aad=b'hdr')], ident, (1, 4))
+                ct2, tag2 = None, None
+                if enc2.error is None and enc2.ok():
+                    for _, it in T.walk(enc2.payload() or (0, 1, [])):
+                        if it[0] == 0x4200C2:
+                            ct2 = it[2]
+                        if it[0] == 0x4200FF:
+                            tag2 = it[2]
+                down = list(builders)
+                if ct is not None and tag is not None:
+                    down.append(('Decrypt.auth-tag', lambda: op_decrypt(key.uid, ct, gcm, iv=nonce, tag=tag)))
+                if ct2 is not None and tag2 is not None:
+                    down.append(('Decrypt.aad+auth-tag', lambda: op_decrypt(key.uid, ct2, gcm, iv=nonce, aad=b'hdr', tag=tag2)))
+                down.append(('Encrypt.aad', lambda: op_encrypt(key.uid, b'attack at dawn!!', gcm, iv=nonce, aad=b'hdr')))
+                down.append(('Encrypt.gcm', lambda: op_encrypt(key.uid, b'attack at dawn!!', gcm, iv=nonce)))
+                for label, mk in down:
+                    for vn in SUPPORTED:
+                        try:
+                            newer_data = rig.encode_request(rig.build_request(vn, [mk()]), vn)
+                        except Exception:
+                            continue
+                        control = srv.send_bytes(newer_data, ident)
+                        ntags = T.tags(T.decode(newer_data, strict=False))
+                        for vo in SUPPORTED:
+                            if vo >= vn or (vo[0] != vn[0]):
+                                continue
+                            late = sorted(t for t in ntags if tag_intro(t) > vo)
+                            if not late:
+                                continue
+                            r = srv.send_bytes(with_version(newer_data, vo), ident, strict_decode=False)
+                            ctx.ev()
+                            ctx.count('downgraded_requests')
+                            outcome = 'raised' if r.error is not None else (r.brief()[0][0] if r.items else 'none')
+                            ctx.cell('downgraded', label, '%d.%d->%d.%d' % (vn + vo), outcome,
+                                     'control:%s' % ('ok' if control.error is None and control.ok() else 'refused'))
+                            if r.error is None and r.ok():
+                                ctx.violation('accepted-newer-field|%s|%06X' % (label.split('.')[0], late[0]),
+                                              'a %s request written by a KMIP %d.%d client (tag %06X, KMIP %d.%d) is served under a '
+                                              'KMIP %d.%d header' % ((label,) + vn + (late[0],) + tag_intro(late[0]) + vo),
+                                              {'request': with_version(newer_data, vo).hex()[:600]})
             else:   # traffic: random requests, sent tags and accepted newer tags
                 for step in range(60):
                     v = rng.choice(SUPPORTED)
